@@ -4,6 +4,7 @@ import AquaDrv.Basic
 import AquaDrv.TraceOps
 import AquaDrv.AstJson
 import AquaDrv.ExecOp
+import AquaDrv.MiscOps
 /-! Line-protocol driver of the model: one JSON request per line on stdin, one JSON answer per line. -/
 open Lean Aqua
 
@@ -16,6 +17,7 @@ def dispatch (j : Json) : Json :=
   | "parse_data" => opParseData j
   | "trace_ops" => opTraceOps j
   | "exec" => opExec j
+  | "sig_merge" => opSigMerge j
   | "ping" => Json.mkObj [("pong", true)]
   | op => Json.mkObj [("error", s!"unknown op {op}")]
 
